@@ -34,8 +34,12 @@ pub fn vec_push<T, A: Allocator>(v: &mut Vec<T, A>, x: T) {
 }
 
 pub fn vec_with_capacity<T>(n: usize) -> Vec<T> {
-    assert!(n <= 64, "CUT: Vec::with_capacity beyond fixed capacity");
-    Vec::with_capacity_in(64, Global)
+    // large elements (the per-turn board record, 64-byte boards, never more than 4): a 64-slot
+    // buffer of them is a 4 KB byte array that CBMC copies and muxes byte-wise (measured: 15 M
+    // variables, out of memory); small elements (actions, squares): 64 slots
+    let cap = if std::mem::size_of::<T>() >= 32 { 4 } else { 64 };
+    assert!(n <= cap, "CUT: Vec::with_capacity beyond fixed capacity");
+    Vec::with_capacity_in(cap, Global)
 }
 
 // ---------------------------------------------------------------------------------------
@@ -175,4 +179,28 @@ pub fn backtrace_capture_disabled() -> std::backtrace::Backtrace {
 pub fn anyhow_format_err_cut(_args: std::fmt::Arguments<'_>) -> anyhow::Error {
     kani::assume(false);
     unreachable!()
+}
+
+/// Exact, loop-free version of `map_bit_board_to_squares` for masks with at most 3 bits (the diff
+/// masks of one step from a position without unsupported trap piece). More bits violate the CUT
+/// assertion (inconclusive, never a pass). Equivalence with the real loop on such masks is the
+/// `mbts_contract_k4` harness.
+pub fn mbts_upto3(board: u64) -> Vec<Square> {
+    let mut v: Vec<Square> = Vec::with_capacity_in(3, Global);
+    let mut b = board;
+    let mut n = 0usize;
+    crate::each!([0usize, 1, 2], _k, {
+        if b != 0 {
+            unsafe {
+                std::ptr::write(v.as_mut_ptr().add(n), Square::from_index(b.trailing_zeros() as u8));
+            }
+            n += 1;
+            b &= b - 1;
+        }
+    });
+    assert!(b == 0, "CUT: diff mask with more than 3 bits");
+    unsafe {
+        v.set_len(n);
+    }
+    v
 }
